@@ -29,8 +29,10 @@ RULE = ("channel objects {TdlChannel SISO, TdlMimoChannel, SuChannel (with / "
         "(object kind, antennas, generator, domain, selection kind, direction, "
         "position in history); non-trivial = more than one tap or antenna, or "
         "a later transmission of a history.")
-ASSUMPTIONS = ["frequency-domain oracle restricted to channel memory < fft size "
-               "(the DFT of the reported response is then unambiguous)",
+ASSUMPTIONS = ["for channel memory >= fft size the DFT of the reported response is "
+               "the defining sum over ALL taps, sum_d h[d] exp(-2 pi i k d / fft) "
+               "(taps fold onto the fft grid; the same reading C02's exact "
+               "equalisation needs)",
                "tap sample index = input sample index (the reported response "
                "has one sample per input sample)"]
 
@@ -230,6 +232,11 @@ def transmit_and_check(ctx, ch, get_resp, kind, mimo, rng, tag, pos, pathloss=No
         fft = max(fft, D + 1) if rng.random() < 0.2 else fft
         if fft <= D - 1:
             fft = D + 1
+        if D >= 3 and rng.random() < 0.25:
+            # channel memory beyond the FFT size (once, twice, several times): the
+            # response at subcarrier k is still sum_d h[d] exp(-2 pi i k d / fft),
+            # i.e. the taps fold onto the fft grid
+            fft = max(2, int(rng.integers(2, D)) // int(rng.choice([1, 1, 2, 3])))
         sel, skind = gen_selection(rng, fft)
         bs = sel_len(sel, fft)
         if bs == 0:
@@ -293,7 +300,7 @@ def case_single_link(ctx, rng, idx):
         return
     pl = None
     if kind == "su-siso-pathloss" or (kind == "su-mimo" and rng.random() < 0.5):
-        pl = float(10.0 ** rng.uniform(-6, 0))
+        pl = float(10.0 ** rng.uniform(-6, 0)) if rng.random() < 0.85 else 0.0   # (0 = blocked link)
         ch.set_pathloss(pl)
         tag["pathloss"] = pl
     nsteps = int(rng.integers(1, 7))
@@ -301,7 +308,8 @@ def case_single_link(ctx, rng, idx):
         if mimo and rng.random() < 0.3:
             ch.switched_direction = not ch.switched_direction
         if pl is not None and rng.random() < 0.2:
-            pl = None if rng.random() < 0.3 else float(10.0 ** rng.uniform(-6, 0))
+            pl = None if rng.random() < 0.3 else (float(10.0 ** rng.uniform(-6, 0))
+                                                  if rng.random() < 0.8 else 0.0)
             ch.set_pathloss(pl)
         transmit_and_check(ctx, ch, ch.get_last_impulse_response, kind, mimo, rng, tag, pos, pl)
     # linearity on a time-invariant channel
